@@ -284,6 +284,7 @@ func (ang *Angine) assembleStateMachine(stateM *state.State) {
 	fastSync := fastSyncable(conf, ang.privValidator.GetAddress(), stateM.Validators)
 
 	blockStore := blockchain.NewBlockStore(ang.dbs["blockstore"], ang.dbs["archive"])
+	ang.completeInterruptedCommit(stateM, blockStore.Height())
 	_, stateLastHeight, _ := stateM.GetLastBlockInfo()
 	bcReactor := blockchain.NewBlockchainReactor(conf, stateLastHeight, blockStore, fastSync, ang.dataArchive)
 	var txPool types.TxPool
@@ -369,6 +370,27 @@ func (ang *Angine) assembleStateMachine(stateM *state.State) {
 	for _, p := range ang.plugins {
 		txPool.RegisterFilter(types.NewTxpoolFilter(p.CheckTx))
 	}
+}
+
+// completeInterruptedCommit finishes a commit that was cut short by a crash after the application had
+// committed block H (its Info() reports H) but before State.Save(): the state on disk is still at H-1
+// although block store and application are at H.  The rest of the assembly (the blockchain reactor's
+// height adjustment, the consensus state, RecoverFromCrash) would otherwise treat block H as not yet
+// executed while the application cannot go back.  Everything State.Save() would have written is known:
+// the intermediate state saved before the application's commit plus the hashes the application reports.
+func (ang *Angine) completeInterruptedCommit(stateM *state.State, storeHeight int64) {
+	if ang.app == nil || storeHeight == 0 || stateM.LastBlockHeight+1 != storeHeight {
+		return
+	}
+	info := ang.app.Info()
+	if info.LastBlockHeight != storeHeight {
+		return
+	}
+	log.Info("Completing the commit interrupted by a crash", zap.Int64("height", storeHeight))
+	stateM.LoadIntermediate()
+	stateM.AppHash = info.LastBlockAppHash
+	stateM.ReceiptsHash = info.LastBlockReceiptsHash
+	stateM.Save()
 }
 
 func (e *Angine) ConnectApp(app types.Application) {
